@@ -352,17 +352,67 @@ func runC02TotalOrder(c *Ctx) {
 		c.anchorMissing("(ByErrorPosition).Less")
 		return
 	}
-	reads := map[string]bool{}
-	eachInstr(fn, func(_ *ssa.BasicBlock, _ int, in ssa.Instruction) {
-		if fa, ok := in.(*ssa.FieldAddr); ok {
-			reads[fieldAddrName(fa)] = true
-		}
-	})
 	construct := "(ByErrorPosition).Less|ties between diagnostics of different map entries"
-	if reads["Error.Message"] {
-		c.ok(construct, fn.Pos(), "diagnostics at one position are ordered by their text")
+	side := func(v ssa.Value) (int, bool) {
+		ia, ok := v.(*ssa.IndexAddr)
+		if !ok || len(fn.Params) < 3 {
+			return 0, false
+		}
+		for i, prm := range fn.Params[1:] {
+			if ia.Index == ssa.Value(prm) {
+				return i, true
+			}
+		}
+		return 0, false
+	}
+	// The comparator is evaluated on two abstract diagnostics for every way their five fields can be related. It is a total
+	// order on what is printed when, unless all five are equal, exactly one of the two is before the other: that needs the
+	// message strings themselves (and then the kinds) compared, not something computed from them.
+	keys := []string{"Filepath", "Line", "Column", "Message", "Kind"}
+	sym := map[int]string{-1: "<", 0: "=", 1: ">"}
+	bad, prio := "", 0
+	found := func(p int, s string) { // the most telling failure names the finding
+		if p > prio {
+			bad, prio = s, p
+		}
+	}
+	if r, ok := evalComparator(fn, map[string]int{"Filepath": 0, "Line": 0, "Column": 0, "Message": 0, "Kind": 0}, side); ok && r {
+		found(1, "a diagnostic is before an equal one: the comparator is not strict, so a stable sort need not keep equal diagnostics in place")
+	}
+	for code := 1; code < 243 && prio < 4; code++ {
+		rel, inv := map[string]int{}, map[string]int{}
+		var desc []string
+		tie := true
+		x := code
+		for i := len(keys) - 1; i >= 0; i-- { // position keys vary slowest: ties at one position come first
+			k := keys[i]
+			rel[k] = (x%3+1)%3 - 1 // 0 -> 0, 1 -> 1, 2 -> -1
+			inv[k] = -rel[k]
+			x /= 3
+		}
+		for _, k := range keys {
+			desc = append(desc, k+sym[rel[k]])
+			if rel[k] != 0 && (k == "Filepath" || k == "Line" || k == "Column") {
+				tie = false
+			}
+		}
+		ab, ok1 := evalComparator(fn, rel, side)
+		ba, ok2 := evalComparator(fn, inv, side)
+		switch {
+		case !ok1 || !ok2:
+			found(4, "the comparator computes on its fields in a way that is not a comparison of the fields themselves (only <, >, ==, strings.Compare on Filepath, Line, Column, Message, Kind give an order on the text): ties are not shown to be broken")
+		case ab == ba && tie && rel["Message"] != 0:
+			found(3, "for "+strings.Join(desc, " ")+" neither diagnostic is before the other: only file, line and column are compared, so diagnostics of different entries of a mapping that land on one position come out in map order")
+		case ab == ba && tie:
+			found(2, "for "+strings.Join(desc, " ")+" neither diagnostic is before the other: diagnostics with one position and one message but different kinds come out in map order")
+		case ab == ba:
+			found(1, "for "+strings.Join(desc, " ")+" the comparator answers "+fmt.Sprint(ab)+" both ways: it is not an order")
+		}
+	}
+	if bad == "" {
+		c.ok(construct, fn.Pos(), "all 242 ways two diagnostics can differ in file, line, column, message and kind evaluated: exactly one is before the other, so diagnostics at one position are ordered by their text")
 	} else {
-		c.bad(construct, fn.Pos(), "only file, line and column are compared: diagnostics of different entries of a mapping that land on one position come out in map order")
+		c.bad(construct, fn.Pos(), bad)
 	}
 }
 
@@ -1197,8 +1247,26 @@ func runC02Less(c *Ctx) {
 	}
 	for _, sp := range specs {
 		construct := FuncName(sp.fn) + "|strict lexicographic order of " + strings.Join(sp.keys, ", ")
+		// fields the comparator reads besides the keys (tie breakers): the keys must decide whatever these are
+		isKey := map[string]bool{}
+		for _, k := range sp.keys {
+			isKey[k] = true
+		}
+		extraSet := map[string]bool{}
+		eachInstr(sp.fn, func(_ *ssa.BasicBlock, _ int, in ssa.Instruction) {
+			if fa, ok := in.(*ssa.FieldAddr); ok {
+				name := fieldAddrName(fa)
+				if i := strings.LastIndex(name, "."); i >= 0 {
+					name = name[i+1:]
+				}
+				if !isKey[name] {
+					extraSet[name] = true
+				}
+			}
+		})
+		allKeys := append(append([]string{}, sp.keys...), sortedKeys(extraSet)...)
 		n := 1
-		for range sp.keys {
+		for range allKeys {
 			n *= 3
 		}
 		bad := ""
@@ -1207,17 +1275,25 @@ func runC02Less(c *Ctx) {
 			rel := map[string]int{}
 			x := code
 			desc := []string{}
-			for _, k := range sp.keys {
+			for _, k := range allKeys {
 				rel[k] = x%3 - 1
 				x /= 3
 				desc = append(desc, fmt.Sprintf("%s%s", k, map[int]string{-1: "<", 0: "=", 1: ">"}[rel[k]]))
 			}
-			want := false
+			want, decided, same := false, false, true
 			for _, k := range sp.keys {
 				if rel[k] != 0 {
-					want = rel[k] < 0
+					want, decided = rel[k] < 0, true
 					break
 				}
+			}
+			for _, k := range allKeys {
+				if rel[k] != 0 {
+					same = false
+				}
+			}
+			if !decided && !same {
+				continue // the keys tie and a tie breaker differs: not a question of the order of the keys
 			}
 			got, ok := evalComparator(sp.fn, rel, sp.side)
 			if !ok {
